@@ -40,7 +40,9 @@ static int run_op(const char *op, uint8_t *out, size_t *outlen, uint8_t *eph, si
 	else if (!strcmp(op, "sm2_sign_ctx")) { SM2_SIGN_CTX c; rc = sm2_sign_init(&c, &k1, SM2_DEFAULT_ID, SM2_DEFAULT_ID_LENGTH);
 		if (rc == 1) rc = sm2_sign_update(&c, msg, 40); if (rc == 1) rc = sm2_sign_finish(&c, out, outlen); if (rc == 1) { memcpy(eph, out, 40); *ephlen = 40; } else *outlen = 0; }
 	else if (!strcmp(op, "sm2_sign_ctx_persist")) {            // ONE signing context for the whole history: nonces are precomputed in batches inside the context
-		static SM2_SIGN_CTX pc; rc = persist_rep == 0 ? sm2_sign_init(&pc, &k1, SM2_DEFAULT_ID, SM2_DEFAULT_ID_LENGTH) : sm2_sign_reset(&pc);
+		static SM2_SIGN_CTX pc; static int pc_ok;      // a context whose initialisation failed is not used: the next signature initialises it again
+		if (persist_rep == 0) pc_ok = 0;
+		if (!pc_ok) { rc = sm2_sign_init(&pc, &k1, SM2_DEFAULT_ID, SM2_DEFAULT_ID_LENGTH); pc_ok = rc == 1; } else rc = sm2_sign_reset(&pc);
 		if (rc == 1) rc = sm2_sign_update(&pc, msg, 40); if (rc == 1) rc = sm2_sign_finish(&pc, out, outlen); if (rc == 1) { memcpy(eph, out, 40); *ephlen = 40; } else *outlen = 0; }
 	else if (!strcmp(op, "sm2_encrypt")) { rc = sm2_encrypt(&k1, msg, 33, out, outlen); if (rc == 1) { memcpy(eph, out, 48); *ephlen = 48; } else *outlen = 0; }
 	else if (!strcmp(op, "sm2_encrypt_fixlen")) { rc = sm2_encrypt_fixlen(&k1, msg, 33, SM2_ciphertext_typical_point_size, out, outlen); if (rc == 1) { memcpy(eph, out, 48); *ephlen = 48; } else *outlen = 0; }
